@@ -147,6 +147,8 @@ def seeded(rng, alphabet, weights=None, max_len=12, ids=None, progress_p=0.5, ca
         "ev": [[a, sym_event(s, k=rng.randint(0, 9))] for a, s in zip(times, word)],
     }
     r = rng.random()
+    # what kind of object the caller passes as its token (the code may only rely on its public surface)
+    case["tokenKind"] = rng.choice(["plain", "plain", "linked", "duck"])
     if r < cancel_p:
         case["cancelAt"] = max(1, rand_time(rng, D))
     elif r < cancel_p + 0.04:
@@ -171,7 +173,9 @@ def shrink_candidates(case):
         c = dict(case)
         c["ev"] = ev[:i] + ev[i + 1:]
         yield c
-    for key in ("cbRaises", "hasToken", "params", "writer", "debug"):
+    if case.get("tokenKind", "plain") != "plain":
+        yield dict(case, tokenKind="plain")
+    for key in ("cbRaises", "hasToken", "params", "writer", "debug", "eos"):
         if case.get(key):
             c = dict(case)
             c.pop(key)
